@@ -154,18 +154,8 @@ def rule_alts(ctx, fmt):
     sd = Dispatch(ctx.repo, dec, rs, svar)
     covered = {k for k in range(256) if sd.run_value(k).accepts}
     # content alternatives in nextTreeInternal
-    nti = ctx.repo.method(DEC, "ReadDecoder", "nextTreeInternal")
-    cvar = None
-    for n in ast.walk(nti):
-        if isinstance(n, ast.Call) and is_self_attr(n.func, "isListTag") and n.args and isinstance(n.args[0], ast.Name):
-            cvar = n.args[0].id
+    _dec, nti, nd = content_dispatch(ctx)
     w = where(DEC, "ReadDecoder.nextTreeInternal", nti.lineno)
-    nd = None
-    if cvar is not None:
-        try:
-            nd = Dispatch(ctx.repo, dec, nti, cvar)
-        except LookupError:
-            nd = None
     if nd is None:
         ctx.undecided("C02.alts", w, nti, "content dispatch variable not found")
     else:
@@ -216,52 +206,179 @@ def rule_alts(ctx, fmt):
         ctx.check("C02.alts", got[None] == ("ret", "s") and got["u"] == ("ret", "u@s"), wr, "JID with / without user part",
                   "a JID pair must decode to user@server, or to the server alone when the user part is absent; got %s and %s" % (got["u"], got[None]), "both JID forms accepted")
     # frame flags
-    gp = ctx.repo.method(DEC, "ReadDecoder", "getProtocolTreeNode")
+    rule_frames(ctx)
+
+
+def _mentions_call(t, name):
+    """the abstract value contains the result of a call of `name`"""
+    if isinstance(t, tuple):
+        if len(t) >= 2 and t[0] in ("fn", "ext") and isinstance(t[1], str) and t[1].rstrip("()").split(".")[-1] == name:
+            return True
+        return any(_mentions_call(y, name) for y in t if isinstance(y, (tuple, list)))
+    if isinstance(t, list):
+        return any(_mentions_call(y, name) for y in t)
+    return False
+
+
+def rule_frames(ctx):
+    """frame flags, by abstract execution of getProtocolTreeNode on ONE decoder object: a plain frame, two deflated
+    frames in a row, a segmented frame.  A deflated frame is inflated (one decompress call fed the whole rest of the
+    frame, its result is what gets parsed); each deflated frame is its own zlib stream, so a streaming inflater object
+    must not live longer than one frame; a segmented frame is refused."""
+    from ..absint import Interp, _Raise, NeedAtom, Budget, DomainGrew, enumerate_cells
+    repo = ctx.repo
+    dec = repo.cls(DEC, "ReadDecoder")
+    td = repo.cls(TOK, "TokenDictionary")
+    gp = repo.method(DEC, "ReadDecoder", "getProtocolTreeNode")
     wg = where(DEC, "ReadDecoder.getProtocolTreeNode", gp.lineno)
-    infl = refuse = False
-    for n in ast.walk(gp):
-        if isinstance(n, ast.If):
-            t = unparse(n.test)
-            if "FLAG_DEFLATE" in t and "&" in t:
-                infl = any(isinstance(c, ast.Call) and unparse(c.func).endswith("decompress") for s in n.body for c in ast.walk(s))
-            if "FLAG_SEGMENTED" in t and "&" in t:
-                refuse = any(isinstance(s, ast.Raise) for s in n.body)
-    ctx.check("C02.alts", infl, wg, "deflated frame", "a frame with the deflate flag set is not inflated before parsing", "inflated with zlib")
-    # ... and inflated completely: a bounded decompress (max_length) silently truncates a large stanza unless the
-    # unconsumed tail is examined
-    dcalls = [c for c in ast.walk(gp) if isinstance(c, ast.Call) and isinstance(c.func, ast.Attribute) and c.func.attr == "decompress"]
-    bounded = [c for c in dcalls if len(c.args) > 1 or any(k.arg in ("max_length", "bufsize") for k in c.keywords)]
-    examined = any(isinstance(a, ast.Attribute) and a.attr in ("unconsumed_tail", "eof") for a in ast.walk(gp))
-    ctx.check("C02.alts", bool(dcalls) and (not bounded or examined), wg, "deflated frame inflated completely",
-              "the inflater is given an output limit (%s) and nothing checks for unconsumed input: a stanza that inflates to more than the limit is silently truncated" % (unparse(bounded[0])[:60] if bounded else ""),
-              "whole stanza inflated")
-    ctx.check("C02.alts", refuse, wg, "segmented frame", "a segmented frame must be refused, not parsed as a whole stanza", "refused")
+    ev = Evaluator(repo, td.module, td)
+    flags = {}
+    for name in ("FLAG_DEFLATE", "FLAG_SEGMENTED"):
+        k, e = repo.class_const(td, name)
+        a = alts(ev.ev(e)) if e is not None else None
+        flags[name] = a[0] if a and len(a) == 1 else None
+    if None in flags.values():
+        ctx.undecided("C02.alts", wg, "frame flags", "flag constants not found")
+        return
+    body = b"\t\t\t"
+    script = [("plain", 0), ("deflated #1", flags["FLAG_DEFLATE"]), ("deflated #2", flags["FLAG_DEFLATE"]), ("segmented", flags["FLAG_SEGMENTED"])]
+
+    def run(cell, domains):
+        parsed = []
+
+        def nti(it, fn, owner, self_val, args, kwargs):
+            parsed.append(args[0] if args else None)
+            return ("ext", "node", [])
+        it = Interp(repo, cell, domains, hooks={"fn:nextTreeInternal": nti})
+        o = it.construct(dec, [("cls", td)], {}, {"@module": dec.module, "@owner": None}, 0, None)
+        out = []
+        for label, flag in script:
+            n0, p0 = len(it.effects), len(parsed)
+            try:
+                it.call_function(gp, dec, o, [("c", bytearray(bytes([flag]) + body))], {}, depth=0)
+                out.append((label, "ret", list(it.effects[n0:]), parsed[p0:]))
+            except _Raise as r:
+                out.append((label, "raise", r.text, []))
+        return out, it
+    try:
+        cells = enumerate_cells(run, {}, max_cells=64)
+    except (Budget, NeedAtom, DomainGrew) as x:
+        ctx.undecided("C02.alts", wg, "frame flags", "getProtocolTreeNode could not be executed: %s" % (x,))
+        return
+    bad = {"plain": [], "deflate": [], "complete": [], "fresh": [], "segmented": []}
+    for cell, out in cells:
+        inflaters = []
+        for label, kind, eff, parsed in out:
+            calls = [e for e in eff if e[0] == "CALL" and e[1].split(".")[-1] in ("decompress", "inflate")] if kind == "ret" else []
+            if label == "plain":
+                if kind != "ret" or len(parsed) != 1 or calls:
+                    bad["plain"].append("a frame without flags %s" % ("raises %s" % eff[:50] if kind == "raise" else "is %s" % ("inflated" if calls else "parsed %d times" % len(parsed))))
+                elif parsed[0] not in (("c", bytearray(body)), ("c", body)):
+                    bad["plain"].append("a frame without flags is parsed from %s, not from the bytes after the flag byte" % str(parsed[0])[:50])
+            elif label.startswith("deflated"):
+                if kind != "ret":
+                    bad["deflate"].append("a frame with the deflate flag raises %s" % eff[:50])
+                    continue
+                if len(calls) != 1 or len(parsed) != 1:
+                    bad["deflate"].append("a frame with the deflate flag set is %s before parsing" % ("not inflated" if not calls else "inflated %d times" % len(calls)))
+                    continue
+                c = calls[0]
+                if not c[2] or c[2][0] not in (("c", body), ("c", bytearray(body))):
+                    bad["deflate"].append("the inflater is fed %s, not the whole frame after the flag byte" % (str(c[2][0])[:40] if c[2] else "nothing"))
+                if len(c[2]) > 1:
+                    bad["complete"].append("the inflater is given an output limit (%s): a stanza that inflates to more is silently truncated" % str(c[2][1])[:30])
+                if not _mentions_call(parsed[0], c[1].split(".")[-1]):
+                    bad["deflate"].append("what is parsed (%s) is not the inflated data" % str(parsed[0])[:60])
+                inflaters.append(c[3])
+            elif label == "segmented":
+                if kind != "raise":
+                    bad["segmented"].append("a segmented frame is parsed as a whole stanza")
+        if len(inflaters) == 2 and inflaters[0] is inflaters[1] and (inflaters[0][0] == "fn" or inflaters[0][1].endswith(")")):
+            bad["fresh"].append("both deflated frames go through the same streaming object %s: every deflated frame is a zlib stream of its own, after the first one ends the object yields nothing (or garbage) for the next" % inflaters[0][1])
+    ctx.check("C02.alts", not bad["plain"], wg, "plain frame", "; ".join(sorted(set(bad["plain"]))[:2]), "parsed from the bytes after the flag byte")
+    ctx.check("C02.alts", not bad["deflate"], wg, "deflated frame", "; ".join(sorted(set(bad["deflate"]))[:2]), "inflated once, the inflated data is parsed")
+    ctx.check("C02.alts", not bad["complete"], wg, "deflated frame inflated completely", "; ".join(sorted(set(bad["complete"]))[:2]), "whole stanza inflated")
+    ctx.check("C02.alts", not bad["fresh"], wg, "deflated frames are independent streams", "; ".join(sorted(set(bad["fresh"]))[:1]), "no inflater state survives a frame")
+    ctx.check("C02.alts", not bad["segmented"], wg, "segmented frame", "a segmented frame must be refused, not parsed as a whole stanza", "refused")
+
+
+def content_dispatch(ctx):
+    """semantic dispatch of nextTreeInternal on the content token (the local handed to isListTag)"""
+    from ..bytedispatch import Dispatch
+    dec = ctx.repo.cls(DEC, "ReadDecoder")
+    nti = ctx.repo.method(DEC, "ReadDecoder", "nextTreeInternal")
+    cvar = None
+    for n in ast.walk(nti):
+        if isinstance(n, ast.Call) and is_self_attr(n.func, "isListTag") and n.args and isinstance(n.args[0], ast.Name):
+            cvar = n.args[0].id
+    if cvar is None:
+        return dec, nti, None
+    try:
+        return dec, nti, Dispatch(ctx.repo, dec, nti, cvar)
+    except LookupError:
+        return dec, nti, None
+
+
+def abstract_types(repo, dec, v, res, depth=0):
+    """definite Python type(s) of an abstract value the decoder computed; 'unknown' never produces a violation"""
+    from ..types import return_types, BUILTIN_RET
+    if not isinstance(v, tuple) or not v:
+        return {"unknown"}
+    if v[0] == "c":
+        return {"None"} if v[1] is None else {type(v[1]).__name__}
+    if v[0] == "list":
+        return {"list"}
+    if v[0] == "dict":
+        return {"dict"}
+    if v[0] in ("fn", "ext"):
+        name = v[1]
+        if name in (".encode()", "encode"):
+            return {"bytes"}
+        if name in (".decode()", "decode", ".join()", "join", ".format()", "format"):
+            return {"str"}
+        if name in BUILTIN_RET:
+            return {BUILTIN_RET[name]}
+        if name.endswith("()") and depth < 3:
+            k, m = repo.find_method(dec, name[:-2].lstrip("."))
+            if m is not None:
+                return return_types(repo, k, m, res, 1)
+    return {"unknown"}
 
 
 def rule_type(ctx):
-    dec = ctx.repo.cls(DEC, "ReadDecoder")
-    nti = ctx.repo.method(DEC, "ReadDecoder", "nextTreeInternal")
+    """what reaches ProtocolTreeNode as content is bytes for every content token - decided per token value by abstract
+    execution of nextTreeInternal (the same dispatch C02.alts uses), so if-chains, reader tables and early returns agree"""
+    dec, nti, nd = content_dispatch(ctx)
     res = Resolver(ctx.repo)
-    # the variable passed as `data` (4th positional) to ProtocolTreeNode
-    var = None
-    for n in ast.walk(nti):
-        if isinstance(n, ast.Call) and unparse(n.func).endswith("ProtocolTreeNode"):
-            if len(n.args) >= 4 and isinstance(n.args[3], ast.Name):
-                var = n.args[3].id
-            for k in n.keywords:
-                if k.arg == "data" and isinstance(k.value, ast.Name):
-                    var = k.value.id
     w = where(DEC, "ReadDecoder.nextTreeInternal", nti.lineno)
-    if var is None:
-        ctx.undecided("C02.type", w, nti, "content argument of ProtocolTreeNode(...) not found")
+    if nd is None:
+        ctx.undecided("C02.type", w, nti, "content dispatch variable not found")
         return
-    for n in ast.walk(nti):
-        if isinstance(n, ast.Assign) and any(isinstance(t, ast.Name) and t.id == var for t in n.targets):
-            ts = expr_types(ctx.repo, dec, nti, n.value, res)
-            bad = sorted(ts - {"bytes", "None", "unknown"})
-            ctx.check("C02.type", not bad, where(DEC, "ReadDecoder.nextTreeInternal", n.lineno), n,
-                      "node content assigned here has type %s; ProtocolTreeNode requires bytes (a valid frame using this content form raises AssertionError)" % "/".join(bad),
-                      "content type %s" % "/".join(sorted(ts)))
+    # one obligation per content form of the format (not per branch of the code)
+    forms = {252: "BINARY_8 (252)", 253: "BINARY_20 (253)", 254: "BINARY_32 (254)", 251: "HEX_8 (251)", 255: "NIBBLE_8 (255)"}
+    groups = {}
+    for k in range(256):
+        b = nd.run_value(k)
+        for c in b.cells:
+            if c.outcome != "ret":
+                continue
+            v = c.value
+            label = forms.get(k, "token / JID strings")
+            if not (isinstance(v, tuple) and v[0] == "node"):
+                groups.setdefault(label, []).append((k, {"unknown"}))
+                continue
+            if "readList" in c.names:
+                continue        # children, no data
+            groups.setdefault(label, []).append((k, abstract_types(ctx.repo, dec, v[1].data, res)))
+    for label, items in sorted(groups.items()):
+        ts = set().union(*[t for _k, t in items])
+        bad = sorted(ts - {"bytes", "None", "unknown"})
+        if ts == {"unknown"}:
+            ctx.undecided("C02.type", w, "content form " + label, "type of the node content could not be determined")
+            continue
+        ctx.check("C02.type", not bad, w, "content form " + label,
+                  "node content has type %s; ProtocolTreeNode requires bytes (a valid frame using this content form raises AssertionError)" % "/".join(bad),
+                  "content type %s (%d token value%s)" % ("/".join(sorted(ts)), len(items), "" if len(items) == 1 else "s"))
 
 
 def rule_dictref(ctx):
